@@ -570,6 +570,34 @@ func genC03(o *cw) {
 			}
 		}
 	}
+	// a positional child step INSIDE another predicate: evaluated once per outer candidate,
+	// the outer filter stops at the first hit; parents with different fan-out
+	multi := []string{"position()>1", "position()!=1", "position()<last()", "position()>=2", "position()=last()", "2", "last()", "position()<3"}
+	for _, t1 := range []string{"a", "*", "p"} {
+		for _, t2 := range []string{"a", "b", "*"} {
+			for _, pp := range multi {
+				for _, outer := range []string{"//*", "/*/*", "//p", "//a"} {
+					e := outer + "[" + t1 + "/" + t2 + "[" + pp + "]]"
+					for _, d := range ds[:5] {
+						o.c("selall", d, "/", "-", e, "", "positional-in-predicate")
+					}
+					o.c("evalall", ds[0], "/", "-", "count("+e+")", "", "positional-in-predicate")
+				}
+			}
+		}
+	}
+	// siblings with the same local name under different prefixes: position()/last() count
+	// with the step's FULL name test
+	nsd := nsDocs(o)
+	for _, nm := range []string{"book", "b:book", "c:book", "*", "a", "p:a", "b", "q:b", "p:b"} {
+		for _, pp := range []string{"1", "2", "last()", "position()=2", "position()=last()", "last()-1", "position()<last()", "last()=1", "position()>1"} {
+			for _, pre := range []string{"//*/", "/*/", "//"} {
+				for _, pr := range nsd {
+					o.c("selall", pr[0], "/", "-", pre+nm+"["+pp+"]", "", "positional-prefixed")
+				}
+			}
+		}
+	}
 	for i := 0; i < 120*o.tier; i++ {
 		st := gen.Step{Axis: "child", Test: g.r.Pick([]string{"a", "*", "p", "node()"}), DSlash: g.r.Chance(50), Preds: []gen.Ex{g.posPred()}}
 		p := gen.Path{Abs: true, Steps: []gen.Step{{Axis: "child", Test: "*"}, st}}
@@ -771,6 +799,13 @@ func genC13(o *cw) {
 	}
 	for i := 0; i < 220*o.tier; i++ {
 		p := g.relPath(allAxes, 1, 3, 35)
+		if i%5 == 0 {
+			// two consecutive descendant steps (descendant-over-descendant) and a third step
+			p = gen.Path{Steps: []gen.Step{{Axis: g.r.Pick([]string{"descendant", "descendant-or-self"}), Test: g.test("child")}, {Axis: g.r.Pick([]string{"descendant", "descendant-or-self"}), Test: g.test("child")}}}
+			if g.r.Chance(40) {
+				p.Steps = append(p.Steps, g.step(allAxes, 0, 0))
+			}
+		}
 		o.features(p)
 		m := both[i%2]
 		d := ds[g.r.Intn(len(ds))]
